@@ -27,6 +27,7 @@
 #include <fcntl.h>
 #include <signal.h>
 #include <stdio.h>
+#include <stdio_ext.h>
 #include <sys/resource.h>
 #include <stdlib.h>
 #include <string.h>
@@ -48,7 +49,8 @@
 /* ---- OS-call interception (link with -Wl,--wrap=...): counts the calls the LIBRARY makes and fails the armed one ---- */
 enum { W_MALLOC, W_MMAP, W_MREMAP, W_MUNMAP, W_OPEN, W_FSTAT, W_READ, W_CLOSE, W_FOPEN, W_FWRITE, W_FCLOSE, W_FREE, W_N };
 static const char *WNAME[W_N] = {"malloc", "mmap", "mremap", "munmap", "open", "fstat", "read", "close", "fopen", "fwrite", "fclose", "free"};
-static int in_lib, arm_call = -1, arm_nth, arm_short, fired;
+static int in_lib, arm_call = -1, arm_nth, arm_short, arm_errno, fired;
+#define ERR(dflt) (arm_errno ? arm_errno : (dflt))
 static int seen[W_N];
 static char callog[256]; static int ncallog;
 static int hit(int w) {
@@ -68,16 +70,17 @@ void __wrap_free(void *p) { hit(W_FREE); __real_free(p); }
 void *__wrap_mmap(void *a, size_t l, int p, int f, int fd, off_t o) { if (hit(W_MMAP)) { errno = ENOMEM; return MAP_FAILED; } return __real_mmap(a, l, p, f, fd, o); }
 void *__wrap_mremap(void *a, size_t o, size_t n, int f, ...) { if (hit(W_MREMAP)) { errno = ENOMEM; return MAP_FAILED; } return __real_mremap(a, o, n, f); }
 int __wrap_munmap(void *a, size_t l) { if (hit(W_MUNMAP)) { errno = EINVAL; return -1; } return __real_munmap(a, l); }
-int __wrap_open(const char *p, int fl, ...) { if (hit(W_OPEN)) { errno = EMFILE; return -1; } return __real_open(p, fl, 0); }
-int __wrap_fstat(int fd, struct stat *st) { if (hit(W_FSTAT)) { errno = EIO; return -1; } return __real_fstat(fd, st); }
-ssize_t __wrap_read(int fd, void *b, size_t n) { if (hit(W_READ)) { errno = EIO; return -1; } return __real_read(fd, b, n); }
-int __wrap_close(int fd) { if (hit(W_CLOSE)) { __real_close(fd); errno = EIO; return -1; } return __real_close(fd); }
-FILE *__wrap_fopen(const char *p, const char *m) { if (hit(W_FOPEN)) { errno = EACCES; return NULL; } return __real_fopen(p, m); }
+int __wrap_open(const char *p, int fl, ...) { if (hit(W_OPEN)) { errno = ERR(EMFILE); return -1; } return __real_open(p, fl, 0); }
+int __wrap_fstat(int fd, struct stat *st) { if (hit(W_FSTAT)) { errno = ERR(EIO); return -1; } return __real_fstat(fd, st); }
+ssize_t __wrap_read(int fd, void *b, size_t n) { if (hit(W_READ)) { errno = ERR(EIO); return -1; } return __real_read(fd, b, n); }
+int __wrap_close(int fd) { if (hit(W_CLOSE)) { __real_close(fd); errno = ERR(EIO); return -1; } return __real_close(fd); }
+FILE *__wrap_fopen(const char *p, const char *m) { if (hit(W_FOPEN)) { errno = ERR(EACCES); return NULL; } return __real_fopen(p, m); }
 size_t __wrap_fwrite(const void *b, size_t sz, size_t n, FILE *f) {
-  if (f != stderr && f != stdout && hit(W_FWRITE)) { errno = ENOSPC; if (arm_short && n > 1) return __real_fwrite(b, sz, n / 2, f); return 0; }
+  if (f != stderr && f != stdout && hit(W_FWRITE)) { errno = ERR(ENOSPC); if (arm_short && n > 1) return __real_fwrite(b, sz, n / 2, f); return 0; }
   return __real_fwrite(b, sz, n, f);
 }
-int __wrap_fclose(FILE *f) { if (hit(W_FCLOSE)) { __real_fclose(f); errno = ENOSPC; return EOF; } return __real_fclose(f); }
+/* a failing fclose is a failing flush: what stdio still buffers never reaches the file */
+int __wrap_fclose(FILE *f) { if (hit(W_FCLOSE)) { __fpurge(f); __real_fclose(f); errno = ERR(ENOSPC); return EOF; } return __real_fclose(f); }
 #define LIB(x) do { in_lib = 1; x; in_lib = 0; } while (0)
 
 struct step { int k; unsigned pos, len; int cap; };
@@ -95,7 +98,7 @@ struct res {
 };
 struct op { char kind; int i, a, b, c, d, e; long long wide; char flags[8]; char tag[32]; char s[16]; char *text; };
 
-struct slot { assemblyline_t al; int ext, cap; unsigned char *buf, *region; size_t rlen; assemblyline_t mir; unsigned char *mbuf; };
+struct slot { assemblyline_t al; int ext, cap, hiw; unsigned char *buf, *region; size_t rlen; assemblyline_t mir; unsigned char *mbuf; };
 
 static struct step cur_steps[MAXSTEPS];
 static int ncur;
@@ -125,6 +128,19 @@ static unsigned char *ext_region(int cap, unsigned char fill, unsigned char **re
   mprotect(r + pages * PAGE, PAGE, PROT_NONE);
   unsigned char *buf = r + pages * PAGE - POST - cap;
   memset(r, 0xC3 ^ fill, pages * PAGE);
+  memset(buf, fill, cap);
+  *region = r; *rlen = len;
+  return buf;
+}
+/* the same, but the caller buffer starts on a page boundary of its own private mapping (the README's mmap usage): canary page in
+ * front, canary bytes behind up to the end of the mapping's last page */
+static unsigned char *ext_region_aligned(int cap, unsigned char fill, unsigned char **region, size_t *rlen) {
+  size_t pages = ((size_t)cap + POST + PAGE - 1) / PAGE;
+  if (pages == 0) pages = 1;
+  size_t len = (pages + 1) * PAGE;
+  unsigned char *r = mmap(NULL, len, PROT_READ | PROT_WRITE | PROT_EXEC, MAP_ANONYMOUS | MAP_PRIVATE, -1, 0);
+  memset(r, 0xC3 ^ fill, len);
+  unsigned char *buf = r + PAGE;
   memset(buf, fill, cap);
   *region = r; *rlen = len;
   return buf;
@@ -161,15 +177,16 @@ static void run_pass(struct op *ops, int nops, unsigned char fill, struct res *r
     struct slot *s = (o->i >= 1 && o->i <= MAXI) ? &sl[o->i] : NULL;
     fired = 0; ncallog = 0;
     if (s && !s->al && strchr("DOKFGPXANTUBM", o->kind)) { x->skipped = 1; continue; }
-    if (o->kind == 'L') s = NULL;
+    if (o->kind == 'L' || o->kind == 'J') s = NULL;
     switch (o->kind) {
     case 'C':
-      if (o->a) { s->ext = 1; s->cap = o->b; s->buf = ext_region(o->b, fill, &s->region, &s->rlen); LIB(s->al = asm_create_instance(s->buf, o->b)); }
-      else { s->ext = 0; s->cap = 0; LIB(s->al = asm_create_instance(NULL, 0)); s->buf = s->al ? asm_get_code(s->al) : NULL; }
+      if (o->a) { s->ext = 1; s->cap = o->b; s->buf = o->a == 2 ? ext_region_aligned(o->b, fill, &s->region, &s->rlen) : ext_region(o->b, fill, &s->region, &s->rlen); LIB(s->al = asm_create_instance(s->buf, o->b)); }
+      else { s->ext = 0; s->cap = 0; s->hiw = 0; LIB(s->al = asm_create_instance(NULL, 0)); s->buf = s->al ? asm_get_code(s->al) : NULL; }
       x->ret = s->al ? 0 : 1;
       break;
     case 'Z':
-      arm_call = -1; arm_short = 0;
+      arm_call = -1; arm_short = 0; arm_errno = 0;
+      { char *dash = strstr(o->s, "-eintr"); if (dash) { *dash = 0; arm_errno = EINTR; } }   /* "<call>-eintr": refused with errno EINTR */
       for (int w = 0; w < W_N; w++) if (!strcmp(o->s, WNAME[w])) arm_call = w;
       if (!strcmp(o->s, "fwrite-short")) { arm_call = W_FWRITE; arm_short = 1; }
       arm_nth = o->a; memset(seen, 0, sizeof seen);
@@ -198,6 +215,7 @@ static void run_pass(struct op *ops, int nops, unsigned char fill, struct res *r
     case 'K': asm_set_chunk_size(s->al, (size_t)o->wide); if (s->mir) asm_set_chunk_size(s->mir, (size_t)o->wide); break;
     case 'F': asm_set_offset(s->al, o->a); if (s->mir) asm_set_offset(s->mir, o->a); break;
     case 'G': asm_set_debug(s->al, o->a); break;
+    case 'J': if (setresgid(65534, 65534, 65534) || setresuid(65534, 65534, 65534)) { } break;   /* the rest of the script runs as an unprivileged user */
     case 'L': { struct rlimit rl; getrlimit(RLIMIT_NOFILE, &rl); rl.rlim_cur = (rlim_t)o->a; setrlimit(RLIMIT_NOFILE, &rl); break; }   /* descriptor limit of this script's process */
     case 'W': tw[0] = o->a; tw[1] = o->b; tw[2] = o->c; tw[3] = o->d; tw[4] = o->e; have_tw = 1; break;
     case 'P': {
@@ -229,7 +247,8 @@ static void run_pass(struct op *ops, int nops, unsigned char fill, struct res *r
       if (snaplen > MIRCAP) snaplen = MIRCAP;
       if (s->ext) memcpy(snap, s->buf, snaplen);
       static unsigned char isnap[MIRCAP]; int isnaplen = 0;
-      if (!s->ext) { isnaplen = off0 > 0 && off0 < MIRCAP ? off0 : 0; memcpy(isnap, before, isnaplen); }
+      /* (only what calls have emitted so far: an offset set beyond that lies over bytes the library never wrote, possibly beyond its capacity) */
+      if (!s->ext) { isnaplen = off0 > 0 && off0 < MIRCAP ? off0 : 0; if (isnaplen > s->hiw) isnaplen = s->hiw; memcpy(isnap, before, isnaplen); }
       x->off0 = off0; x->dest = -7;
       cur_al = s->al; ncur = 0;
       char *txt = strdup(o->text);
@@ -250,6 +269,7 @@ static void run_pass(struct op *ops, int nops, unsigned char fill, struct res *r
       const char *twtext = isfile ? content : o->text;
       cur_al = NULL;
       x->off1 = asm_get_offset(s->al);
+      if (x->ret == 0 && x->off1 > s->hiw) s->hiw = x->off1;
       unsigned char *after = dep ? asm_get_buffer(s->al) : asm_get_code(s->al);
       x->moved = after != before;
       s->buf = s->ext ? s->buf : after;
@@ -344,7 +364,7 @@ static void print_events(const char *sid, struct op *ops, int nops, struct res *
     case 'G': if (x->skipped) { printf("{\"e\":\"Skipped\",\"i\":%d}\n", o->i); break; }
       printf("{\"e\":\"SetDebug\",\"i\":%d,\"b\":%d}\n", o->i, o->a); break;
     case 'W': break;
-    case 'L': printf("{\"e\":\"Skipped\",\"i\":0}\n"); break;
+    case 'L': case 'J': printf("{\"e\":\"Skipped\",\"i\":0}\n"); break;
     case 'P':
       if (x->skipped) { printf("{\"e\":\"Skipped\",\"i\":%d}\n", o->i); break; }
       printf("{\"e\":\"Probe\",\"i\":%d,\"codes\":[", o->i);
@@ -438,12 +458,13 @@ int main(void) {
     o->kind = ln[0];
     static char hex[1 << 22];
     switch (ln[0]) {
-    case 'C': { char kind[8]; int cap = 0; if (sscanf(ln + 2, "%d %7s %d", &o->i, kind, &cap) >= 2) { o->a = !strcmp(kind, "ext"); o->b = cap; } break; }
+    case 'C': { char kind[8]; int cap = 0; if (sscanf(ln + 2, "%d %7s %d", &o->i, kind, &cap) >= 2) { o->a = !strcmp(kind, "ext") ? 1 : !strcmp(kind, "exta") ? 2 : 0; o->b = cap; } break; }
     case 'M': case 'D': case 'P': case 'X': sscanf(ln + 2, "%d", &o->i); break;
     case 'O': sscanf(ln + 2, "%d %15s %d", &o->i, o->s, &o->a); break;
     case 'K': sscanf(ln + 2, "%d %lld", &o->i, &o->wide); o->a = o->wide > (1LL << 30) ? (1 << 30) : (int)o->wide; break;   /* the chunk size is a size_t */
     case 'F': case 'G': sscanf(ln + 2, "%d %d", &o->i, &o->a); break;
     case 'L': sscanf(ln + 2, "%d", &o->a); o->i = 0; break;
+    case 'J': o->i = 0; break;
     case 'W': sscanf(ln + 2, "%d %d %d %d %d", &o->a, &o->b, &o->c, &o->d, &o->e); break;
     case 'A': case 'T': hex[0] = 0; sscanf(ln + 2, "%d %7s %31s %4194303s", &o->i, o->flags, o->tag, hex); break;
     case 'N': case 'U': hex[0] = 0; sscanf(ln + 2, "%d %d %7s %31s %4194303s", &o->i, &o->a, o->flags, o->tag, hex); break;
